@@ -156,3 +156,10 @@ def check(ctx):
         else:
             ctx.violation('C02-in-order-concatenation', fi or (fr.file, 'Fragments.' + name), 'Fragments.%s' % name, 'does not insert at the cursor', fr.node.lineno, clause='2')
     ctx.trust(*ASSUMPTIONS)
+
+
+def thorough(ctx):
+    """thorough tier: the declaration constructs used anywhere in the repository (examples, tests,
+    docs) map to analysed strategies / rules"""
+    from ..inventory import inventory
+    inventory(ctx)
